@@ -645,7 +645,7 @@ def _reuse_case(rng):
 
 
 def generate(rng, tier):
-    cases = list(CORPUS) + _level_cases() + _corpus_files()
+    cases = _hole_cases() + list(CORPUS) + _level_cases() + _corpus_files()
     for _ in range(200 if tier == 'quick' else 3000):
         cases.append(_reuse_case(rng))
     cases += _exhaustive(rng, tier)
@@ -656,6 +656,7 @@ def generate(rng, tier):
 
 
 def extra_checks(rng, tier, workdir):
+    yield from _unpersist_hole_checks()
     yield from _source_iterator_check()
     yield from _fault_checks(rng, tier)
     yield from _failed_job_checks(rng, tier)
@@ -1363,6 +1364,95 @@ def _interleaving_checks(rng, tier):
                         fail = ('unpersist:entry-left-behind', f'after the job with finish order {order}')
             if fail:
                 yield (fail[0], 'tasks of one job sharing the PersistedRDD object, finishing out of order', fail[1], case)
+
+
+def _hole_cases():
+    """Case-protocol histories that leave HOLES in front of present entries when unpersist() runs: timed manager,
+    take() computes the first h partitions at time 0, a collect the others at time 3, gc at time 6 (timeout 5)
+    expires only the earlier ones.  Every partition count 2..4 and every hole prefix length."""
+    out = []
+    for nparts in (2, 3, 4):
+        for h in range(1, nparts):
+            parts = [[10 * k + 1, 10 * k + 2] for k in range(nparts)]
+            for pool in (False, True):
+                out.append(([5], [(0, pool)], [(0, parts, [(MAP, 0), (PERSIST, 0), (MAP, 1)])],
+                            [(0, 0, 2, 2, 2 * h), (2, 3), (0, 0, 2, 0, 0), (2, 3), (3, 0), (1, 0, 2),
+                             (0, 0, 2, 0, 0), (0, 0, 3, 0, 0)]))
+    return out
+
+
+def _unpersist_hole_checks():
+    """Cache states with holes at the moment of unpersist(): for 2..4 partitions and EVERY subset of partitions
+    that have an entry (all hole patterns, in particular every non-prefix subset), produced by
+      'runjob'  Context.runJob(p, f, partitions=[only those]),
+      'delete'  a full collect, then CacheManager.delete of the others,
+      'gc'      TimedCacheManager: the others computed at time 0, those at time 3, gc() at time 6 (timeout 5);
+    afterwards the manager holds no entry of the dataset and the next action recomputes every partition (exactly
+    one upstream call per element).  Deterministic and exhaustive, the same in both tiers.  Oracle only."""
+    import itertools as it
+    _install()
+    for nparts in (2, 3, 4):
+        parts = [[10 * k + j for j in range(1 + k % 2)] for k in range(nparts)]
+        n = sum(len(x) for x in parts)
+        want = [x + 1 for part in parts for x in part]
+        for r in range(1, nparts + 1):
+            for present in it.combinations(range(nparts), r):
+                for how in ('runjob', 'runjob-timed', 'delete', 'delete-timed', 'gc'):
+                    CLOCK.t = 0
+                    calls = []
+
+                    def f(x, calls=calls):
+                        calls.append(x)
+                        return x + 1
+                    timed = how in ('runjob-timed', 'delete-timed', 'gc')
+                    m = TimedCacheManager(timeout=5 if how == 'gc' else 50) if timed else CacheManager()
+                    sc = Context(cache_manager=m)
+                    p = sc._parallelize_partitions([list(x) for x in parts]).map(f).persist()   # pylint: disable=protected-access
+                    q = p.map(lambda x: x * 10)
+                    ps = p.partitions()
+                    force = lambda tc, i: list(i)     # noqa: E731
+                    if how.startswith('runjob'):
+                        sc.runJob(q, force, partitions=[ps[k] for k in present])
+                    elif how.startswith('delete'):
+                        p.collect()
+                        for k in range(nparts):
+                            if k not in present:
+                                m.delete((p.id(), k))
+                    else:
+                        others = [ps[k] for k in range(nparts) if k not in present]
+                        if others:
+                            sc.runJob(p, force, partitions=others)
+                        CLOCK.t = 3
+                        sc.runJob(p, force, partitions=[ps[k] for k in present])
+                        CLOCK.t = 6
+                        m.gc()
+                    case = ('unpersist-holes', nparts, list(present), how)
+                    have = sorted(k[1] for k in m.cache_obj if k[0] == p.id())
+                    if have != list(present):
+                        yield ('unpersist-holes:setup', 'the hole pattern could not be produced',
+                               f'wanted entries for {list(present)}, manager has {have}', case)
+                        continue
+                    ret = p.unpersist()
+                    left = sorted(k for k in m.cache_obj if k[0] == p.id())
+                    if left:
+                        yield ('unpersist:entry-left-behind', 'cache state with holes at the moment of unpersist()',
+                               f'{nparts} partitions, entries for {list(present)} ({how}): after unpersist() {left} remain', case)
+                        continue
+                    before = len(calls)
+                    got = rng_free_choice(p, q, len(present))
+                    exp = want if got[0] == 'p' else [x * 10 for x in want]
+                    if got[1] != exp or len(calls) - before != n:
+                        yield ('unpersist:stale-entries-served', 'cache state with holes at the moment of unpersist()',
+                               f'{nparts} partitions, entries for {list(present)} ({how}): the next collect on {got[0]} gave '
+                               f'{got[1]!r} with {len(calls) - before} upstream calls (recomputation needs {n})', case)
+                        continue
+                    if ret.collect() != want:
+                        yield ('unpersist:contents-differ', 'cache state with holes', '', case)
+
+
+def rng_free_choice(p, q, r):
+    """alternate deterministically between the persisted node and its descendant"""
+    return ('p', p.collect()) if r % 2 else ('q', q.collect())
 
 
 def _source_iterator_check():
